@@ -41,6 +41,26 @@ def run(ck, tier):
     _merge(ck, p, byk)
     n = serde_audit.audit(ck, p, "R-C11-serde", "harper_core::linting::lint_group::LintGroupConfig", "LintGroupConfig")
     _transparent(ck, p)
+    if tier == "thorough":
+        _witness(ck)
+
+
+def _witness(ck):
+    """type-level part of the independence lemma: programs that would let a rule mutate the shared
+    document / a pattern mutate itself must fail to compile (with a compiling twin each)"""
+    rule = "R-C11-indep"
+    try:
+        res = facts.run_witness()
+    except facts.FactsError as e:
+        ck.refuted(rule, "witness:run", "witness/src/lib.rs", "the compile-fail witnesses could not be built against this tree: %s" % e)
+        return
+    fails = [r for r in res if r[1] == "compile fail"]
+    twins = [r for r in res if r[1] == "compile"]
+    ck.floor(rule, "compile-fail witnesses", len(fails), 2)
+    ck.floor(rule, "compiling twins", len(twins), 2)
+    for name, kind, ok in res:
+        ck.decide(rule, "witness:%s:%s" % (name, kind.replace(" ", "-")), ok, "witness/src/lib.rs",
+                  ("the violating program is rejected by rustc with the expected error code" if kind == "compile fail" else "the twin that differs only in the offending line compiles") + (": %s" % ok))
 
 
 def lint_fn(ck, byk, rule):
